@@ -38,8 +38,10 @@ type BoxStream = Pin<Box<dyn tokio_stream::Stream<Item = Result<Vec<u8>, Status>
 impl Svc for H {
     async fn unary(&self, r: Request<Vec<u8>>) -> Result<Response<Vec<u8>>, Status> {
         // Request::peer_certs() only knows TCP / UDS connect infos; over the in-memory pipe the same data is in TlsConnectInfo<()>
-        let via_ext = r.extensions().get::<tonic::transport::server::TlsConnectInfo<()>>().and_then(|i| i.peer_certs()).map(|c| c.len() as i64);
-        self.log.ev(json!({"e":"handler","peer_certs": r.peer_certs().map(|c| c.len() as i64).or(via_ext).unwrap_or(-1)}));
+        let certs = r.peer_certs().or_else(|| r.extensions().get::<tonic::transport::server::TlsConnectInfo<()>>().and_then(|i| i.peer_certs()));
+        // one small digest per certificate shown to the handler, in order (the driver computes the same digests from the PEM files)
+        let digests: Vec<u64> = certs.as_ref().map(|c| c.iter().map(|d| d.as_ref().iter().enumerate().fold(0u64, |a, (i, b)| (a + (i as u64 % 251 + 1) * *b as u64) % 1_000_003)).collect()).unwrap_or_default();
+        self.log.ev(json!({"e":"handler","peer_certs": certs.as_ref().map(|c| c.len() as i64).unwrap_or(-1), "peer_digests": digests}));
         Ok(Response::new(vec![1]))
     }
     async fn cstream(&self, _r: Request<Streaming<Vec<u8>>>) -> Result<Response<Vec<u8>>, Status> { Err(Status::unimplemented("")) }
@@ -149,7 +151,11 @@ pub fn run(stim: &Value, rec: &Rec) {
             match stim["name"].as_str().unwrap_or("match") { "match" => { t = t.domain_name("good.test"); } "mismatch" => { t = t.domain_name("wrong.test"); } _ => {} }
                     }
                     "identity" => {
-            match stim["identity"].as_str().unwrap_or("none") { "valid" => { t = t.identity(Identity::from_pem(pem("client_c.pem"), pem("client_c.key"))); } "other_ca" => { t = t.identity(Identity::from_pem(pem("client_b.pem"), pem("client_b.key"))); } _ => {} }
+            match stim["identity"].as_str().unwrap_or("none") { "valid" => { t = t.identity(Identity::from_pem(pem("client_c.pem"), pem("client_c.key"))); } "other_ca" => { t = t.identity(Identity::from_pem(pem("client_b.pem"), pem("client_b.key"))); }
+                // "chain": a leaf issued by a sub-CA of the server's client CA, presented together with that sub-CA's certificate;
+                // "chain_leaf_only": the same leaf without the certificate that links it to the trusted CA
+                "chain" => { t = t.identity(Identity::from_pem(pem("client_chain.pem"), pem("client_ci.key"))); }
+                "chain_leaf_only" => { t = t.identity(Identity::from_pem(pem("client_ci.pem"), pem("client_ci.key"))); } _ => {} }
                     }
                     "assume" => { t = t.assume_http2(stim["assume_http2"].as_bool().unwrap_or(false)); }
                     _ => {}
